@@ -2,6 +2,7 @@ package main
 
 import (
 	"fmt"
+	"go/types"
 	"strings"
 
 	"golang.org/x/tools/go/ssa"
@@ -58,6 +59,14 @@ func c10Teardown(p *Prog, ls *Lockset, r *Report) {
 		return
 	}
 	for _, fn := range p.ImplsOf(dli, "RemoveRemoteDevice") {
+		fn := fn
+		p.InScope(fn, func() { c10TeardownOne(p, ls, r, fn, smi, bmi, fli) })
+	}
+	c10TeardownRest(p, ls, r)
+}
+
+func c10TeardownOne(p *Prog, ls *Lockset, r *Report, fn *ssa.Function, smi, bmi, fli *types.Interface) {
+	{
 		base := FnName(fn)
 		// the found device
 		var found *ssa.Call
@@ -133,6 +142,9 @@ func c10Teardown(p *Prog, ls *Lockset, r *Report) {
 			r.Check("R3", base+"|"+name, extra == 0 && okArg, p.InstrPos(c), fmt.Sprintf("%d extra conditions; %s", extra, desc))
 		}
 	}
+}
+
+func c10TeardownRest(p *Prog, ls *Lockset, r *Report) {
 	// per-device removals visit every entity
 	for _, m := range []struct {
 		typ, dev, ent string
@@ -171,6 +183,7 @@ func c10Teardown(p *Prog, ls *Lockset, r *Report) {
 
 // deviceAddressOf: v is &DeviceAddressType{Device: <found>.Address()}.
 func deviceAddressOf(v ssa.Value, found *ssa.Call) bool {
+	v = canonValue(v)
 	al, ok := v.(*ssa.Alloc)
 	if !ok || al.Referrers() == nil || found == nil {
 		return false
@@ -179,7 +192,7 @@ func deviceAddressOf(v ssa.Value, found *ssa.Call) bool {
 		if fa, ok := ref.(*ssa.FieldAddr); ok && fieldOfAddr(fa).Name() == "Device" {
 			for _, r2 := range *fa.Referrers() {
 				if st, ok := r2.(*ssa.Store); ok && st.Addr == ssa.Value(fa) {
-					if c, ok := st.Val.(*ssa.Call); ok && c.Call.IsInvoke() && c.Call.Method.Name() == "Address" && unwrapIface(c.Call.Value) == ssa.Value(found) {
+					if c, ok := st.Val.(*ssa.Call); ok && c.Call.IsInvoke() && c.Call.Method.Name() == "Address" && canonValue(c.Call.Value) == canonValue(found) {
 						return true
 					}
 				}
